@@ -383,9 +383,21 @@ def run_unit(unit, tier):
                 for ig in (False, True):
                     one(build_hunk('CDIC', None, 3, 3, True, None, pl), ig,
                         True)
+        # payloads that are themselves structural lines (a diff of a patch
+        # file): the first byte of the line decides, nothing else
         for pl in (b'', b'\x00x\x00', b'x\x00\x00\x00', b'\xe2\x80\xa8',
-                   b'\xc2\x85', b'\xff\xfe', b'@@ -1 +1 @@', b'-- a', b'++ b'):
-            one(build_hunk('CDIIC', 2, 3, 3, False, b'ctx', pl), False, True)
+                   b'\xc2\x85', b'\xff\xfe', b'@@ -1 +1 @@', b'-- a', b'++ b',
+                   MARK, MARK[1:], b' ' + MARK, MARK + b' ',
+                   b'\\ No newline', b'@@ -1,2 +1,2 @@ ctx', b'--- a/f',
+                   b'+++ b/f', b'diff --git a/f b/f', b'Binary files differ',
+                   b' ', b'  ', b'\t', b'-', b'+', b'\\'):
+            for body in ('CDIIC', 'C', 'D', 'I', 'CC', 'DI'):
+                for ig in (False, True):
+                    one(build_hunk(body, None, 3, 3, True, None, pl), ig,
+                        True)
+                    one(build_hunk(body, len(body) - 1, 3, 3, False, b'ctx',
+                                   pl) + build_hunk('DI', None, 40, 40, True,
+                                                    None, b'x'), ig, True)
         # every byte value in the header's context text (function names in
         # latin-1 / Shift-JIS sources, invalid UTF-8, NUL)
         for b in range(256):
